@@ -487,4 +487,117 @@ theorem setTimeRange_of_RT (tbl : List (Char × Char)) (fa : FloatArith) (c : Ex
     (unfold ntPart at hb; rw [hb])
 
 
+
+/-! ### what ConditionExpr observes -/
+
+/-- `conditionExpr` on a condition without time bounds: it succeeds, sets no bound, and returns a
+residual of the same value. -/
+theorem conditionExpr_resTF (ctx : CCtx) : ∀ (N : Expr), isResTF ctx.lowerTbl N = true →
+    ∃ r, conditionExpr ctx N = .ok (some r, {}) ∧ isRes r = true ∧ ∀ L, evalB L r = evalB L N
+  | .binary op l r, h => by
+    by_cases hop : op = .AND ∨ op = .OR
+    · simp only [isResTF, hop, if_true, Bool.and_eq_true] at h
+      obtain ⟨rl, hl, hl2, hl3⟩ := conditionExpr_resTF ctx l h.1
+      obtain ⟨rr, hr, hr2, hr3⟩ := conditionExpr_resTF ctx r h.2
+      have hres : isRes (.binary op rl rr) = true := by simp [isRes, hop, hl2, hr2]
+      refine ⟨reduce ctx.nilR (.binary op rl rr), ?_, (reduce_res ctx.nilR (fun _ => false) _ hres).1, ?_⟩
+      · rw [conditionExpr]
+        simp only [hop, if_true, hl, hr]
+        simp [TimeRange.intersect]
+      · intro L
+        rw [(reduce_res ctx.nilR L _ hres).2]
+        exact evalB_logical L op _ _ _ _ hop (hl3 L) (hr3 L)
+    · have h' := h
+      simp only [isResTF, hop, if_false, Bool.and_eq_true, Bool.not_eq_true'] at h
+      obtain ⟨⟨⟨⟨_, hs⟩, _⟩, htl⟩, htr⟩ := h
+      have hand : op ≠ .AND := fun e => hop (Or.inl e)
+      have hor : op ≠ .OR := fun e => hop (Or.inr e)
+      refine ⟨.binary op l r, ?_, by simp [isRes, hop, hs], fun _ => rfl⟩
+      rw [conditionExpr]
+      simp only [hop, if_false, htl, htr, Bool.false_eq_true, reduce_stable ctx.r op l r hand hor hs]
+  | .paren e, h => by
+    simp only [isResTF] at h
+    obtain ⟨r, hr, hr2, hr3⟩ := conditionExpr_resTF ctx e h
+    have hres : isRes (.paren r) = true := by simp [isRes, hr2]
+    refine ⟨reduce ctx.nilR (.paren r), ?_, (reduce_res ctx.nilR (fun _ => false) _ hres).1, ?_⟩
+    · rw [conditionExpr]
+      simp only [hr]
+    · intro L
+      rw [(reduce_res ctx.nilR L _ hres).2]
+      simp [evalB, hr3 L]
+  | .boolean b, _ => ⟨.boolean b, by simp [conditionExpr], by simp [isRes], fun _ => rfl⟩
+  | .call .., h | .varRef .., h | .distinct .., h | .wildcard .., h | .regex .., h | .string .., h
+  | .number .., h | .integer .., h | .unsigned .., h | .duration .., h | .time .., h | .nil, h
+  | .list .., h | .boundParam .., h => by simp [isResTF] at h
+
+/-- The range of `time ⋈ '<instant printed by SetTimeRange>'`. -/
+theorem getTimeRange_printed (c : RCtx) (op : Token) (s : Int)
+    (h1 : isTimeLiteral (formatRFC3339Nano s) = true)
+    (h2 : toTimeLiteral (formatRFC3339Nano s) c.zoneOpt = some s)
+    (hlo : minTimeC + 1 ≤ s) (hhi : s ≤ maxTimeC) (tr : TimeRange) (hr : rangeOf op s = some tr) :
+    getTimeRange c op (.string (formatRFC3339Nano s)) = .ok tr := by
+  unfold getTimeRange
+  simp only [h1, if_true, h2, bind, Except.bind, Reduce, reduce]
+  have hv : timeValue (.time s) = .ok s := by
+    unfold timeValue
+    simp only []
+    rw [if_neg (by omega), if_neg (by omega)]
+  simp [hv, hr]
+
+
+
+/-! ### ConditionExpr on the condition after one call -/
+
+/-- The window instants are timestamps a time literal may carry (`MinTime < t ≤ MaxTime`). -/
+def Window.inRange (w : Window) : Prop :=
+  minTimeC + 1 ≤ w.start ∧ w.start ≤ maxTimeC ∧ minTimeC + 1 ≤ w.stop ∧ w.stop ≤ maxTimeC
+
+theorem conditionExpr_bounds (ctx : CCtx) (w : Window) (hT : isTimeRef ctx.lowerTbl timeVar = true)
+    (hw : WindowOK ctx w) (hr : w.inRange) :
+    conditionExpr ctx (geBound w.start) = .ok (none, { min := w.start }) ∧
+    conditionExpr ctx (ltBound w.stop) = .ok (none, { max := w.stop - 1 }) := by
+  obtain ⟨a1, a2, a3, a4⟩ := hw
+  obtain ⟨r1, r2, r3, r4⟩ := hr
+  constructor
+  · rw [geBound, conditionExpr]
+    simp only [hT, if_true, show ¬ (Token.GTE = .AND ∨ Token.GTE = .OR) from by decide, if_false]
+    rw [getTimeRange_printed ctx.r .GTE w.start a1 a2 r1 r2 _ rfl]
+  · rw [ltBound, conditionExpr]
+    simp only [hT, if_true, show ¬ (Token.LT = .AND ∨ Token.LT = .OR) from by decide, if_false]
+    rw [getTimeRange_printed ctx.r .LT w.stop a3 a4 r3 r4 _ rfl]
+
+/-- What `ConditionExpr` makes of the condition after one call. -/
+theorem conditionExpr_build (ctx : CCtx) (fa : FloatArith) (N : Expr) (w : Window)
+    (hN : isResTF ctx.lowerTbl N = true) (hT : isTimeRef ctx.lowerTbl timeVar = true)
+    (hw : WindowOK ctx w) (hr : w.inRange) :
+    ∃ res tr, ConditionExpr ctx (some (build fa N w)) = .ok (res, tr) ∧
+      (∀ L, evalOpt L res = evalB L N) ∧
+      (N ≠ .boolean false → tr = ⟨w.start, w.stop - 1⟩) ∧
+      (N = .boolean false → tr = {}) := by
+  obtain ⟨hge, hlt⟩ := conditionExpr_bounds ctx w hT hw hr
+  obtain ⟨r1, r2, r3, r4⟩ := hr
+  have hs : w.start ≠ zeroTime := by unfold minTimeC minInt64 zeroTime at *; omega
+  have he : w.stop - 1 ≠ zeroTime := by unfold minTimeC minInt64 zeroTime at *; omega
+  have hi1 : (({} : TimeRange).intersect { min := w.start }) = { min := w.start } := by
+    simp [TimeRange.intersect, hs]
+  have hi2 : (({ min := w.start } : TimeRange).intersect { max := w.stop - 1 }) = ⟨w.start, w.stop - 1⟩ := by
+    simp [TimeRange.intersect, he]
+  rcases build_cases ctx.lowerTbl fa N w hN with ⟨rfl, hb⟩ | ⟨rfl, hb⟩ | ⟨hnb, hb⟩
+  · refine ⟨none, ⟨w.start, w.stop - 1⟩, ?_, fun L => by simp [evalOpt, evalB], fun _ => rfl, fun h => by cases h⟩
+    rw [hb, ConditionExpr, conditionExpr]
+    simp only [true_or, if_true, hge, hlt, hi2]
+    rfl
+  · refine ⟨some (.boolean false), {}, ?_, fun L => by simp [evalOpt, evalB], fun h => absurd rfl h, fun _ => rfl⟩
+    rw [hb, ConditionExpr, conditionExpr]
+    rfl
+  · obtain ⟨r, hr, hr2, hr3⟩ := conditionExpr_resTF ctx N hN
+    refine ⟨dropTrue (stripTopParen (some r)), ⟨w.start, w.stop - 1⟩, ?_, ?_, fun _ => rfl, fun h => absurd h (hnb false)⟩
+    · rw [hb, ConditionExpr, conditionExpr]
+      simp only [true_or, if_true]
+      rw [conditionExpr]
+      simp only [true_or, if_true, hr, hge, hlt, hi1, hi2]
+    · intro L
+      rw [strip_preserves, evalOpt, hr3 L]
+
+
 end InfluxQL
